@@ -1,6 +1,626 @@
-//! C20 — harness module not built yet.
+//! C20 — migrations never downgrade, never cross contract types, and preserve state.
+//! For each of the eighteen contracts with a migrate entry point: put it into a reachable
+//! mid-life state, overwrite the stored cw2 (name, version) with every point of a grid,
+//! migrate to the same code, and record ok/err, the cw2 info, the slots a migration may
+//! write, and whether anything else (raw storage, smart queries) changed.
+use crate::chain;
+use crate::util::*;
+use crate::w_migrate::*;
 use crate::Args;
-pub fn run(_a: &Args) {
-    eprintln!("C20: harness module not built yet");
-    std::process::exit(2);
+use serde::{Deserialize, Serialize};
+use serde_json::{json, Value};
+use std::collections::{BTreeMap, BTreeSet};
+
+#[derive(Clone, Copy, Debug, Serialize, Deserialize, PartialEq, Eq, PartialOrd, Ord)]
+pub enum MsgKind {
+    /// `Empty {}` for the non-factories, `null` for the factories
+    Nothing,
+    /// a factory update that changes a few parameters
+    Valid,
+    BadMinMintPrice,
+    BadAirdropPrice,
+    BadShuffleFee,
+}
+
+#[derive(Clone, Debug, Serialize, Deserialize, PartialEq, Eq, PartialOrd, Ord)]
+pub enum Case {
+    /// semver::Version::parse on the crate itself
+    Parse { s: String },
+    /// the crate's Ord
+    Cmp { a: (u64, u64, u64), b: (u64, u64, u64) },
+    Mig {
+        contract: Contract,
+        stage: u8,
+        name: String,
+        version: String,
+        msg: MsgKind,
+        /// sg721-updatable only: write a cw721 0.16 `minter` item (the current owner) first
+        legacy_minter: bool,
+        /// sg721-updatable only: remove the updatable flags first (a genuine sg721-base state)
+        strip_flags: bool,
+        /// run the migration at this block time instead of the world's (nanoseconds)
+        clock: Option<u64>,
+    },
+}
+
+fn coq_str(s: &str) -> String {
+    format!("\"{}\"%string", s.replace('"', "\"\""))
+}
+fn coq_opt_bool(b: Option<bool>) -> String {
+    match b {
+        Some(x) => format!("(Some {})", coq_bool(x)),
+        None => "None".into(),
+    }
+}
+
+/// documented identities (written from the property / the crates' published names; not
+/// read from the model or from Consts)
+fn documented_names(c: Contract) -> Vec<&'static str> {
+    use Contract::*;
+    match c {
+        VendingMinter | VendingMinterFeatured | VendingMinterMerkleWl | VendingMinterMerkleWlFeatured | TokenMergeMinter => vec!["crates.io:sg-minter"],
+        VendingMinterWlFlex | VendingMinterWlFlexFeatured => vec!["crates.io:sg-vending-minter-flex"],
+        OpenEditionMinter | OpenEditionMinterMerkleWl => vec!["crates.io:sg-open-edition-minter"],
+        OpenEditionMinterWlFlex => vec!["crates.io:sg-open-edition-minter-flex"],
+        BaseFactory => vec!["crates.io:sg-base-factory"],
+        VendingFactory => vec!["crates.io:vending-factory"],
+        OpenEditionFactory => vec!["crates.io:open-edition-factory"],
+        TokenMergeFactory => vec!["crates.io:token-merge-factory"],
+        Splits => vec!["crates.io:sg-splits"],
+        WhitelistMerkletree => vec!["crates.io:whitelist-merkletree"],
+        TieredWhitelistMerkletree => vec!["crates.io:tiered-whitelist-merkletree"],
+        Sg721Updatable => vec!["sg721-base", "crates.io:sg721-base", "sg721-updatable", "crates.io:sg721-updatable"],
+    }
+}
+fn own_name(c: Contract) -> &'static str {
+    if c == Contract::Sg721Updatable {
+        "crates.io:sg721-updatable"
+    } else {
+        documented_names(c)[0]
+    }
+}
+
+/// the workspace version of the tree under test (every crate uses `version.workspace = true`)
+fn workspace_version() -> String {
+    let repo = std::env::var("VERIF_REPO").unwrap_or_else(|_| "/repo".to_string());
+    let txt = std::fs::read_to_string(format!("{}/Cargo.toml", repo)).expect("workspace Cargo.toml");
+    let mut in_pkg = false;
+    for l in txt.lines() {
+        let t = l.trim();
+        if t.starts_with('[') {
+            in_pkg = t == "[workspace.package]";
+        } else if in_pkg && t.starts_with("version") {
+            return t.split('"').nth(1).expect("version string").to_string();
+        }
+    }
+    panic!("workspace version not found")
+}
+
+fn plain_triple(s: &str) -> Option<(u64, u64, u64)> {
+    match semver::Version::parse(s) {
+        Ok(v) if v.pre.is_empty() && v.build.is_empty() => Some((v.major, v.minor, v.patch)),
+        _ => None,
+    }
+}
+
+fn factory_msg(c: Contract, k: MsgKind) -> Value {
+    use Contract::*;
+    if k == MsgKind::Nothing {
+        return if c.kind() == Kind::Factory { Value::Null } else { json!({}) };
+    }
+    let bad = |b: bool| if b { json!({"amount": "7", "denom": "uatom"}) } else { Value::Null };
+    let ext = match c {
+        BaseFactory => Value::Null,
+        VendingFactory | TokenMergeFactory => json!({"max_token_limit": 777, "max_per_address_limit": null,
+            "airdrop_mint_price": bad(k == MsgKind::BadAirdropPrice), "airdrop_mint_fee_bps": 5000,
+            "shuffle_fee": bad(k == MsgKind::BadShuffleFee)}),
+        _ => json!({"max_token_limit": 777, "max_per_address_limit": null, "min_mint_price": null,
+            "airdrop_mint_price": bad(k == MsgKind::BadAirdropPrice), "airdrop_mint_fee_bps": 5000, "dev_fee_address": null}),
+    };
+    if c == TokenMergeFactory {
+        json!({"code_id": 21, "add_sg721_code_ids": [13], "rm_sg721_code_ids": [1], "frozen": true,
+            "creation_fee": null, "max_trading_offset_secs": null, "extension": ext})
+    } else {
+        json!({"code_id": 21, "add_sg721_code_ids": [13], "rm_sg721_code_ids": [1], "frozen": true,
+            "creation_fee": null, "min_mint_price": bad(k == MsgKind::BadMinMintPrice), "mint_fee_bps": 250,
+            "max_trading_offset_secs": null, "extension": ext})
+    }
+}
+fn msg_expressible(c: Contract, k: MsgKind) -> bool {
+    use Contract::*;
+    match (c, k) {
+        (_, MsgKind::Nothing) => true,
+        (x, _) if x.kind() != Kind::Factory => false,
+        (_, MsgKind::Valid) => true,
+        (BaseFactory, MsgKind::BadMinMintPrice) => true,
+        (BaseFactory, _) => false,
+        (TokenMergeFactory, MsgKind::BadMinMintPrice) => false,
+        (OpenEditionFactory, MsgKind::BadShuffleFee) => false,
+        _ => true,
+    }
+}
+fn coq_msg(c: Contract, k: MsgKind) -> String {
+    if c.kind() != Kind::Factory || k == MsgKind::Nothing {
+        return "None".into();
+    }
+    format!(
+        "(Some (mkFmsg {} {} {}))",
+        coq_bool(k == MsgKind::BadMinMintPrice),
+        coq_bool(k == MsgKind::BadAirdropPrice),
+        coq_bool(k == MsgKind::BadShuffleFee)
+    )
+}
+
+struct World {
+    setup: Setup,
+    raw0: Raw,
+    time0: cosmwasm_std::BlockInfo,
+    qs: Vec<(Value, bool)>,
+    ids: Ids,
+}
+
+struct Outcome {
+    coq: String,
+    ok: bool,
+    viol: Vec<(String, String)>,
+    nontrivial: bool,
+}
+
+fn coq_state(name: &str, version: &str, raw: &Raw, ids: &mut Ids) -> String {
+    let t = |k: &str| coq_opt_n(slot_timestamp(raw, k));
+    let a = |o: Option<String>, ids: &mut Ids| coq_opt_n(o.map(|s| ids.id(&s)));
+    let lm = a(slot_addr(raw, "minter"), ids);
+    let ow = a(slot_owner(raw), ids);
+    format!(
+        "(mkState {} {} (mkSlots {} {} {} {} {} {}))",
+        coq_str(name),
+        coq_str(version),
+        t("last_discount_time"),
+        coq_opt_bool(slot_bool(raw, "frozen_token_metadata")),
+        coq_opt_bool(slot_bool(raw, "enable_updatable")),
+        t("royalty_updated_at"),
+        lm,
+        ow
+    )
+}
+
+fn run_mig(w: &mut World, case: &Case, code_version: &str) -> Outcome {
+    let Case::Mig { contract, name, version, msg, legacy_minter, strip_flags, clock, .. } = case else { unreachable!() };
+    let c = *contract;
+    let addr = w.setup.addr.clone();
+    // ---- put the world back and apply the case's preparation
+    restore(&mut w.setup.app, &addr, &w.raw0);
+    w.setup.app.set_block(w.time0.clone());
+    if let Some(t) = clock {
+        let mut b = w.time0.clone();
+        b.time = cosmwasm_std::Timestamp::from_nanos(*t);
+        w.setup.app.set_block(b);
+    }
+    {
+        let owner = slot_owner(&w.raw0);
+        let mut st = w.setup.app.contract_storage_mut(&addr);
+        if *legacy_minter {
+            if let Some(o) = owner {
+                st.set(b"minter", serde_json::to_string(&o).unwrap().as_bytes());
+            }
+        }
+        if *strip_flags {
+            st.remove(b"frozen_token_metadata");
+            st.remove(b"enable_updatable");
+        }
+    }
+    set_cw2(&mut w.setup.app, &addr, name, version);
+    let now = chain::now(&w.setup.app);
+    let pre = snapshot(&w.setup.app, &addr, &w.qs);
+    // ---- migrate
+    let r = migrate(&mut w.setup, &factory_msg(c, *msg));
+    let ok = r.is_ok();
+    let post = snapshot(&w.setup.app, &addr, &w.qs);
+    let (post_name, post_version) = get_cw2(&w.setup.app, &addr);
+
+    // ---- what changed
+    let mut changed_keys: BTreeSet<String> = BTreeSet::new();
+    for k in pre.raw.keys().chain(post.raw.keys()) {
+        if pre.raw.get(k) != post.raw.get(k) {
+            changed_keys.insert(String::from_utf8_lossy(k).to_string());
+        }
+    }
+    let other_keys_changed: Vec<&String> = changed_keys.iter().filter(|k| !SLOT_KEYS.contains(&k.as_str())).collect();
+    let changed_queries: Vec<usize> = (0..w.qs.len()).filter(|i| pre.answers[*i] != post.answers[*i]).collect();
+    let plain_queries_changed: Vec<usize> = changed_queries.iter().cloned().filter(|i| !w.qs[*i].1).collect();
+    let rest_unchanged = other_keys_changed.is_empty() && plain_queries_changed.is_empty();
+    let params_changed = changed_keys.contains("sudo-params");
+
+    // ---- monitors (property text; documented names; the semver crate for the ordering)
+    let mut viol = vec![];
+    let mut v = |key: &str, what: String| viol.push((format!("C20:{}:{:?}", key, c), format!("{:?} stored ({:?}, {:?}) msg {:?}: {}", c, name, version, msg, what)));
+    let code = plain_triple(code_version).expect("code version");
+    let stored = plain_triple(version);
+    let accepted = documented_names(c).contains(&name.as_str());
+    let from_base = c == Contract::Sg721Updatable && (name == "sg721-base" || name == "crates.io:sg721-base");
+    if ok {
+        if !accepted {
+            v("accepted-foreign-name", "the stored contract identity is not one this code accepts".into());
+        }
+        match stored {
+            None => v("accepted-unparsable-version", "the stored version is not a semantic version".into()),
+            Some(s) if s > code => v("accepted-newer-version", format!("stored {:?} is newer than the code's {:?}", s, code)),
+            _ => {}
+        }
+        if c.kind() == Kind::Factory {
+            if (post_name.as_str(), post_version.as_str()) != (name.as_str(), version.as_str()) {
+                v("post-version", format!("a factory migration changed the recorded version to ({}, {})", post_name, post_version));
+            }
+        } else if (post_name.as_str(), post_version.as_str()) != (own_name(c), code_version) {
+            v("post-version", format!("recorded ({}, {}) after migration, expected ({}, {})", post_name, post_version, own_name(c), code_version));
+        }
+        // every value that could be queried before is unchanged, apart from the documented exceptions
+        for i in &changed_queries {
+            if pre.answers[*i].is_err() {
+                continue; // could not be queried before
+            }
+            let q = w.qs[*i].0.to_string();
+            let exempt = (c.kind() == Kind::Factory && *msg != MsgKind::Nothing && w.qs[*i].1)
+                || (from_base && (q.contains("enable_updatable") || q.contains("freeze_token_metadata")));
+            if !exempt {
+                v("state-changed", format!("query {} answered {:?} before and {:?} after", q, pre.answers[*i], post.answers[*i]));
+            }
+        }
+        let older = |t: (u64, u64, u64)| stored.map_or(false, |s| s < t);
+        for k in &changed_keys {
+            let allowed = match k.as_str() {
+                "contract_info" => c.kind() != Kind::Factory,
+                "last_discount_time" => c.kind() == Kind::Vending && older((3, 9, 0)),
+                "frozen_token_metadata" | "enable_updatable" => from_base,
+                "royalty_updated_at" => c == Contract::Sg721Updatable && older((3, 1, 0)),
+                "minter" | "ownership" => c == Contract::Sg721Updatable && older((3, 0, 0)),
+                "sudo-params" => c.kind() == Kind::Factory && *msg != MsgKind::Nothing,
+                _ => false,
+            };
+            if !allowed {
+                v("storage-changed", format!("raw storage key {:?} changed", k));
+            }
+        }
+        // the discount cooldown anchor is now - 12 h, the royalty timestamp now - 24 h
+        if c.kind() == Kind::Vending && older((3, 9, 0)) && slot_timestamp(&post.raw, "last_discount_time") != Some(now.wrapping_sub(12 * 3600 * 1_000_000_000)) {
+            v("discount-anchor", format!("LAST_DISCOUNT_TIME = {:?} at block time {}", slot_timestamp(&post.raw, "last_discount_time"), now));
+        }
+        if c == Contract::Sg721Updatable && older((3, 1, 0)) && slot_timestamp(&post.raw, "royalty_updated_at") != Some(now.wrapping_sub(24 * 3600 * 1_000_000_000)) {
+            v("royalty-timestamp", format!("royalty_updated_at = {:?} at block time {}", slot_timestamp(&post.raw, "royalty_updated_at"), now));
+        }
+    } else {
+        if pre.raw != post.raw {
+            v("rejected-but-changed", format!("a refused migration changed storage keys {:?}", changed_keys));
+        }
+        // accepted for every older version of an accepted identity that the code declares compatible
+        if let (true, Some(s)) = (accepted, stored) {
+            let declared = match c.kind() {
+                Kind::Updatable => s >= (0, 16, 0) && !(s == code && name == own_name(c)) && (s >= (3, 0, 0) || *legacy_minter),
+                _ => true,
+            };
+            let clock_fine = clock.map_or(true, |t| t >= 24 * 3600 * 1_000_000_000);
+            let msg_fine = matches!(msg, MsgKind::Nothing | MsgKind::Valid);
+            if s <= code && declared && clock_fine && msg_fine {
+                v("refused-compatible", format!("refused although the identity is accepted and {:?} <= {:?}: {}", s, code, r.as_ref().unwrap_err()));
+            }
+        }
+    }
+    drop(v);
+
+    let pre_s = coq_state(name, version, &pre.raw, &mut w.ids);
+    let post_s = coq_state(&post_name, &post_version, &post.raw, &mut w.ids);
+    Outcome {
+        coq: format!(
+            "CMig {} {} {} {} {} {} {} {}",
+            c.coq(),
+            now,
+            coq_msg(c, *msg),
+            pre_s,
+            coq_bool(ok),
+            post_s,
+            coq_bool(params_changed),
+            coq_bool(rest_unchanged)
+        ),
+        ok,
+        viol,
+        nontrivial: accepted && stored.is_some(),
+    }
+}
+
+fn run_pure(case: &Case) -> Outcome {
+    match case {
+        Case::Parse { s } => {
+            let r = semver::Version::parse(s);
+            let coq = match &r {
+                Ok(v) if v.pre.is_empty() && v.build.is_empty() => format!("CParse {} (Some ({}, {}, {}))", coq_str(s), v.major, v.minor, v.patch),
+                Ok(_) => format!("CParse {} None", coq_str("outside-the-model")), // never generated
+                Err(_) => format!("CParse {} None", coq_str(s)),
+            };
+            Outcome { coq, ok: r.is_ok(), viol: vec![], nontrivial: r.is_ok() }
+        }
+        Case::Cmp { a, b } => {
+            let va = semver::Version::new(a.0, a.1, a.2);
+            let vb = semver::Version::new(b.0, b.1, b.2);
+            let mut viol = vec![];
+            // the ordering the property speaks of: numeric, component by component
+            let want = a < b;
+            if (va < vb) != want {
+                viol.push(("C20:semver-order".to_string(), format!("{} < {} is {} on the crate", va, vb, va < vb)));
+            }
+            Outcome {
+                coq: format!("CCmp ({}, {}, {}) ({}, {}, {}) {}", a.0, a.1, a.2, b.0, b.1, b.2, coq_bool(va < vb)),
+                ok: va < vb,
+                viol,
+                nontrivial: true,
+            }
+        }
+        _ => unreachable!(),
+    }
+}
+
+// ---------------- generators ----------------
+const MAJORS: [u64; 5] = [0, 1, 2, 3, 4];
+const MINORS: [u64; 7] = [0, 1, 9, 10, 15, 16, 17];
+const PATCHES: [u64; 4] = [0, 1, 9, 10];
+
+fn grid_versions() -> Vec<String> {
+    let mut v = vec![];
+    for a in MAJORS {
+        for b in MINORS {
+            for c in PATCHES {
+                v.push(format!("{}.{}.{}", a, b, c));
+            }
+        }
+    }
+    v
+}
+fn boundary_versions(code: &str) -> Vec<String> {
+    let (a, b, c) = plain_triple(code).unwrap();
+    let mut v: Vec<String> = vec![
+        "3.8.9", "3.8.99", "3.9.0", "3.9.1", "2.99.99", "3.0.0", "3.0.1", "3.0.99", "3.1.0", "0.15.99", "0.16.0", "0.16.1", "0.0.0",
+        "18446744073709551615.0.0", "3.18446744073709551615.0", "0.0.18446744073709551615", "3.2.0", "3.100.0", "30.0.0", "3.16.100",
+    ]
+    .into_iter()
+    .map(String::from)
+    .collect();
+    v.push(code.to_string());
+    v.push(format!("{}.{}.{}", a, b, c + 1));
+    v.push(format!("{}.{}.{}", a, b + 1, 0));
+    v.push(format!("{}.{}.{}", a + 1, 0, 0));
+    if c > 0 {
+        v.push(format!("{}.{}.{}", a, b, c - 1));
+    }
+    if b > 0 {
+        v.push(format!("{}.{}.{}", a, b - 1, 99));
+        v.push(format!("{}.{}.{}", a, b - 1, c));
+    }
+    if a > 0 {
+        v.push(format!("{}.{}.{}", a - 1, 99, 99));
+        v.push(format!("{}.{}.{}", a - 1, b + 1, c));
+    }
+    v
+}
+const MALFORMED: [&str; 26] = [
+    "", "3", "3.16", "3.16.0.0", "v3.16.0", "3.16.x", "03.16.0", "3.016.0", "3.16.00", " 3.16.0", "3.16.0 ", "3..0", ".16.0", "3.16.", "a.b.c",
+    "18446744073709551616.0.0", "3,16,0", "-1.0.0", "+1.0.0", "1.0.0.", "3.16.0-", "3.16.0+", "3.1 6.0", "3.16.O", "0x3.0.0", "3.16.0\n",
+];
+const NAMES: [&str; 26] = [
+    "crates.io:sg-minter", "crates.io:sg-vending-minter-flex", "crates.io:sg-open-edition-minter", "crates.io:sg-open-edition-minter-flex",
+    "crates.io:sg-base-minter", "crates.io:sg721-base", "sg721-base", "crates.io:sg721-updatable", "sg721-updatable",
+    "crates.io:sg721-nt", "crates.io:sg721-metadata-onchain",
+    "crates.io:vending-factory", "crates.io:sg-base-factory", "crates.io:open-edition-factory", "crates.io:token-merge-factory",
+    "crates.io:sg-splits", "crates.io:whitelist-merkletree", "crates.io:tiered-whitelist-merkletree", "crates.io:sg-whitelist",
+    "crates.io:cw4-group", "", "sg-minter", "crates.io:sg-minter ", "CRATES.IO:SG-MINTER", "crates.io:sg-minterx", "crates.io:sg721-updatabl",
+];
+
+fn mig(contract: Contract, stage: u8, name: &str, version: &str) -> Case {
+    Case::Mig { contract, stage, name: name.to_string(), version: version.to_string(), msg: MsgKind::Nothing, legacy_minter: false, strip_flags: false, clock: None }
+}
+
+fn gen_cases(a: &Args, code: &str) -> Vec<Case> {
+    let mut rng = Rng::new(a.seed);
+    let mut cases = vec![];
+    let grid = grid_versions();
+    let bounds = boundary_versions(code);
+    // ---- the semver crate itself: parse and order
+    for s in grid.iter().chain(bounds.iter()) {
+        cases.push(Case::Parse { s: s.clone() });
+    }
+    for s in MALFORMED {
+        cases.push(Case::Parse { s: s.to_string() });
+    }
+    let pool: Vec<u64> = vec![0, 1, 2, 3, 4, 8, 9, 10, 15, 16, 17, 99, 100, u64::MAX];
+    let trip = |rng: &mut Rng| (*rng.pick(&pool), *rng.pick(&pool), *rng.pick(&pool));
+    cases.push(Case::Cmp { a: (3, 9, 0), b: (3, 16, 0) });
+    cases.push(Case::Cmp { a: (3, 16, 0), b: (3, 9, 0) });
+    cases.push(Case::Cmp { a: (3, 16, 0), b: (3, 16, 0) });
+    cases.push(Case::Cmp { a: (2, 17, 10), b: (3, 0, 0) });
+    cases.push(Case::Cmp { a: (3, 0, 10), b: (3, 0, 9) });
+    for _ in 0..(if a.thorough() { 4000 } else { 300 }) {
+        let x = trip(&mut rng);
+        let y = if rng.chance(1, 4) { x } else { trip(&mut rng) };
+        cases.push(Case::Cmp { a: x, b: y });
+    }
+    // ---- per contract
+    for c in ALL {
+        let own = own_name(c);
+        let stages: &[u8] = &[1, 0, 2];
+        for (si, &stage) in stages.iter().enumerate() {
+            let names = documented_names(c);
+            for name in &names {
+                // the whole grid on the main state, a sample on the other two
+                for (i, ver) in grid.iter().enumerate() {
+                    if si == 0 || (i + si * 3) % 11 == 0 {
+                        cases.push(mig(c, stage, name, ver));
+                    }
+                }
+                for ver in &bounds {
+                    cases.push(mig(c, stage, name, ver));
+                }
+                if si == 0 || name == &own {
+                    for ver in MALFORMED {
+                        cases.push(mig(c, stage, name, ver));
+                    }
+                }
+            }
+            // foreign (and, for some contracts, accepted) names
+            for name in NAMES.iter().cloned().chain([&own[10.min(own.len())..], &format!("{}x", own)[..]].into_iter()) {
+                for ver in ["0.16.0", "3.0.0", "3.15.10", code, "4.0.0", "3.16"] {
+                    if si == 0 || rng.chance(1, 4) {
+                        cases.push(mig(c, stage, name, ver));
+                    }
+                }
+            }
+            // factory messages
+            if c.kind() == Kind::Factory {
+                for k in [MsgKind::Valid, MsgKind::BadMinMintPrice, MsgKind::BadAirdropPrice, MsgKind::BadShuffleFee] {
+                    if !msg_expressible(c, k) {
+                        continue;
+                    }
+                    for (name, ver) in [(own, "3.15.0"), (own, code), (own, "0.1.0"), (own, "3.17.0"), (own, "x"), ("crates.io:sg-minter", "3.15.0")] {
+                        cases.push(Case::Mig { contract: c, stage, name: name.to_string(), version: ver.to_string(), msg: k, legacy_minter: false, strip_flags: false, clock: None });
+                    }
+                }
+            }
+            // block times around the 12 h / 24 h subtractions
+            if c.kind() == Kind::Vending || c == Contract::Sg721Updatable {
+                let h = 3600 * 1_000_000_000u64;
+                for t in [12 * h - 1, 12 * h, 12 * h + 1, 24 * h - 1, 24 * h, 24 * h + 1, 0] {
+                    for ver in ["3.8.9", "3.9.0", "3.0.10", "3.1.0", "3.15.0"] {
+                        cases.push(Case::Mig { contract: c, stage, name: own.to_string(), version: ver.to_string(), msg: MsgKind::Nothing, legacy_minter: false, strip_flags: false, clock: Some(t) });
+                    }
+                }
+            }
+            // sg721-updatable: legacy cw721 0.16 minter item, stripped flags
+            if c == Contract::Sg721Updatable {
+                for name in documented_names(c) {
+                    for (i, ver) in grid.iter().chain(bounds.iter()).enumerate() {
+                        if si == 0 || i % 7 == si {
+                            for strip in [false, true] {
+                                cases.push(Case::Mig { contract: c, stage, name: name.to_string(), version: ver.clone(), msg: MsgKind::Nothing, legacy_minter: true, strip_flags: strip, clock: None });
+                            }
+                            if i % 5 == 0 {
+                                cases.push(Case::Mig { contract: c, stage, name: name.to_string(), version: ver.clone(), msg: MsgKind::Nothing, legacy_minter: false, strip_flags: true, clock: None });
+                            }
+                        }
+                    }
+                }
+            }
+        }
+    }
+    // ---- random stream
+    let nrand = if a.thorough() { 20_000 } else { 600 };
+    for _ in 0..nrand {
+        let c = *rng.pick(&ALL);
+        let stage = rng.below(3) as u8;
+        let name = if rng.chance(3, 5) { rng.pick(&documented_names(c)).to_string() } else { rng.pick(&NAMES).to_string() };
+        let version = match rng.below(10) {
+            0 => rng.pick(&MALFORMED).to_string(),
+            1 => code.to_string(),
+            _ => {
+                let (x, y, z) = (*rng.pick(&pool[..12]), *rng.pick(&pool), *rng.pick(&pool));
+                format!("{}.{}.{}", x, y, z)
+            }
+        };
+        let msg = if c.kind() == Kind::Factory && rng.chance(1, 2) {
+            let k = *rng.pick(&[MsgKind::Valid, MsgKind::Valid, MsgKind::BadMinMintPrice, MsgKind::BadAirdropPrice, MsgKind::BadShuffleFee]);
+            if msg_expressible(c, k) { k } else { MsgKind::Valid }
+        } else {
+            MsgKind::Nothing
+        };
+        let upd = c == Contract::Sg721Updatable;
+        cases.push(Case::Mig { contract: c, stage, name, version, msg, legacy_minter: upd && rng.chance(1, 2), strip_flags: upd && rng.chance(1, 3), clock: None });
+    }
+    cases
+}
+
+/// developer aid: C20_DEBUG=1 prints which setups / queries do not work
+fn debug_setups() {
+    for c in ALL {
+        for stage in 0..3u8 {
+            match setup(c, stage) {
+                Err(e) => println!("SETUP FAIL {:?} stage {}: {}", c, stage, e),
+                Ok(s) => {
+                    let qs = queries(c);
+                    let snap = snapshot(&s.app, &s.addr, &qs);
+                    let bad: Vec<String> = qs.iter().zip(snap.answers.iter()).filter(|(_, a)| a.is_err()).map(|((q, _), _)| q.to_string()).collect();
+                    println!("{:?} stage {}: addr {} admin {} keys {} queries {} failing {:?}", c, stage, s.addr, s.admin, snap.raw.len(), qs.len(), bad);
+                }
+            }
+        }
+    }
+}
+
+pub fn run(a: &Args) {
+    if std::env::var("C20_DEBUG").is_ok() {
+        debug_setups();
+        return;
+    }
+    let out = OutDir::new(&a.out);
+    let mut rep = Report { property: "C20".into(), tier: a.tier.clone(), seed: a.seed, ..Default::default() };
+    let code = workspace_version();
+    let cases: Vec<Case> = if let Some(p) = &a.replay {
+        #[derive(Deserialize)]
+        struct ReplayFile {
+            case: Case,
+        }
+        let txt = std::fs::read_to_string(p).expect("replay file");
+        let rf: ReplayFile = serde_json::from_str(&txt).expect("replay json");
+        vec![rf.case]
+    } else {
+        gen_cases(a, &code)
+    };
+    let mut worlds: BTreeMap<(Contract, u8), World> = BTreeMap::new();
+    let mut coq_cases = Vec::with_capacity(cases.len());
+    let mut distinct = BTreeSet::new();
+    let mut nviol = 0;
+    let mut seen_keys = BTreeSet::new();
+    for (i, case) in cases.iter().enumerate() {
+        let o = match case {
+            Case::Mig { contract, stage, .. } => {
+                let w = worlds.entry((*contract, *stage)).or_insert_with(|| {
+                    let setup = setup(*contract, *stage).unwrap_or_else(|e| panic!("cannot set up {:?} stage {}: {}", contract, stage, e));
+                    let raw0 = raw_storage(&setup.app, &setup.addr);
+                    let time0 = setup.app.block_info();
+                    World { raw0, time0, qs: queries(*contract), ids: Ids::with_fixed(&[], 10), setup }
+                });
+                let o = run_mig(w, case, &code);
+                rep.bump(&format!("{:?}:migrate:{}", contract, if o.ok { "ok" } else { "err" }));
+                o
+            }
+            _ => {
+                let o = run_pure(case);
+                rep.bump(&format!("semver:{}:{}", if matches!(case, Case::Parse { .. }) { "parse" } else { "cmp" }, if o.ok { "ok/true" } else { "err/false" }));
+                o
+            }
+        };
+        rep.evaluations += 1;
+        if o.nontrivial {
+            distinct.insert(case.clone());
+        }
+        for (key, what) in &o.viol {
+            nviol += 1;
+            if !seen_keys.insert(key.clone()) || rep.violations.len() >= 40 {
+                continue;
+            }
+            let body = format!(
+                "{{\n \"property\": \"C20\",\n \"key\": {},\n \"case\": {},\n \"violation\": {}\n}}\n",
+                serde_json::to_string(key).unwrap(),
+                serde_json::to_string(case).unwrap(),
+                serde_json::to_string(what).unwrap()
+            );
+            let path = out.write_replay(&format!("C20-{}.json", rep.violations.len() + 1), &body);
+            rep.violations.push(Violation { key: key.clone(), what: what.clone(), replay: path });
+        }
+        if rep.samples.len() < 3 && (i % 1499 == 700 || a.replay.is_some()) {
+            rep.samples.push(json!({"case": format!("{:?}", case), "impl_ok": o.ok, "model_case": o.coq}));
+        }
+        coq_cases.push(o.coq);
+    }
+    rep.distinct_nontrivial = distinct.len() as u64;
+    rep.rule = "per contract (18) x life stage (3): stored cw2 (name, version) over the grid {0,1,2,3,4}x{0,1,9,10,15,16,17}x{0,1,9,10}, boundary versions (3.8.x/3.9.0, 2.99.99/3.0.0/3.1.0, 0.15.99/0.16.0, code-1/code/code+1, u64 max), 26 malformed version strings, 28 names (own, the other contracts', near misses); factory messages (none / valid / non-native denom per coin); block times around 12 h and 24 h; sg721-updatable with and without a legacy cw721 0.16 minter item and updatable flags; plus the semver crate's parse and Ord directly. Non-trivial = distinct case whose stored name is accepted and whose stored version parses (the migrate function gets past its identity checks).".into();
+    rep.notes.push(format!("code (workspace) version of the tree under test: {}", code));
+    out.write_cases("C20", "From Coq Require Import String.\nFrom LP Require Import Semver Migrate C20Corr.", "c20_case", "c20_check", &coq_cases, 6, &mut rep);
+    out.finish(&rep);
+    println!("C20 harness: {} cases, {} monitor violations", rep.evaluations, nviol);
 }
